@@ -166,6 +166,12 @@ class FGen:
                      ["call", f, [self.num_leaf(sc), ["var", rng.choice(same)]], {}]]]
         if r < 0.93:
             return ["call", "<builtin>elementwise_abs", [["var", rng.choice(same)]], {}]
+        if r < 0.97 and d >= 1:
+            # conditional expression over user-type values (plain moves or expressions in the branches)
+            a, b = rng.choice(same), rng.choice(same)
+            tb = ["var", a] if rng.random() < 0.6 else ["*", ["num", 0.5], ["var", a]]
+            eb = ["var", b] if rng.random() < 0.6 else ["+", ["var", b], ["var", a]]
+            return ["if", ["cmp", rng.choice(["<", ">"]), self.num_leaf(sc), self.num_leaf(sc)], tb, eb]
         return ["/", ["var", rng.choice(same)], ["num", 2]]
 
     def arr_expr(self, sc, d, length):
@@ -262,8 +268,25 @@ class FGen:
                          ["var", lhs] if (q < 0.7 and sc["uts"].get(lhs) == tid) else
                          ["+", ["var", u], ["*", ["var", c], ["var", rng.choice(same)]]])
                 rhs = ["call", "<func>rhs", [tt, inner], {}]
-                if rng.random() < 0.3:
+                q2 = rng.random()
+                if q2 < 0.3:
                     rhs = ["+", ["var", u], ["*", ["num", 0.5], rhs]]
+                elif q2 < 0.6:
+                    # a conditional expression over user-type values inside the loop: one branch is a plain move
+                    # of a loop-invariant temporary ('acc <- (rhs(..) if i < 1 else k1) [i=0..3]')
+                    locs = [x for x in same if not x.startswith("<")]
+                    other = rng.choice(locs or same)
+                    if rng.random() < 0.6 and "kinv" not in sc["nums"] and "kinv" not in sc["arrs"]:
+                        # ... a temporary made just for this loop, whose last use is the move inside the loop
+                        other = "kinv"
+                        ops.append(["call", ["kinv"], "<func>rhs", [["var", "<t>"], ["var", u]], {}, 0])
+                        sc["uts"]["kinv"] = tid
+                    rhs = ["if", ["cmp", "<", ["var", c], ["num", 1]], rhs, ["var", other]]
+                    ops.append(["assign", lhs, None, rhs, [[c, ["num", 0], ["num", rng.choice([3, 4])]]], 0])
+                    sc["uts"][lhs] = tid
+                    if other == "kinv":
+                        del sc["uts"]["kinv"]      # (not used again)
+                    continue
                 ops.append(["assign", lhs, None, rhs, [[c, ["num", 0], ["num", rng.choice([1, 2, 3])]]], 0])
                 sc["uts"][lhs] = tid
                 continue
